@@ -162,8 +162,8 @@ def judge_one(an, inst, text, blob, dec, norm):
         if rest:
             owner = inst.cid
             # a difference inside a memory operand built by a nested addressing-mode constructor is that constructor's
-            if prov and all(j in ct for j in prov) and isinstance(pseq[n][1][i], tuple) and pseq[n][1][i][0] == "m":
-                owner = "+".join(sorted({ct[j] for j in prov}))
+            if prov and any(j in ct for j in prov) and isinstance(pseq[n][1][i], tuple) and pseq[n][1][i][0] in ("m", "sh"):
+                owner = "+".join(sorted({ct[j] for j in prov if j in ct}))
             keys.append("%s/%s/operands" % (an, owner))
     if not keys:
         return ("c10", pseq[0][0]), None
@@ -204,12 +204,8 @@ def process(p, an, insts, rows=None):
     del llvmdis.CRASHES[:]
     p.count("reference_known_crash_encodings_withheld", len(llvmdis.KNOWN_CRASH_HITS))
     del llvmdis.KNOWN_CRASH_HITS[:]
+    verdicts = []
     for (inst, text, blob), d in zip(todo, dec):
-        p.add()
-        opts = ctor_names(inst)
-        cname = "%s:%s" % (an, inst.cid)
-        if opts:
-            cname += "[%s]" % ",".join(opts[i] for i in sorted(opts))
         if norm is None:
             v, detail = ("unc", "no-normaliser"), None
         else:
@@ -217,6 +213,15 @@ def process(p, an, insts, rows=None):
                 v, detail = judge_one(an, inst, text, blob, d, norm)
             except Exception as e:  # noqa  a bug in the normaliser must never become a violation
                 v, detail = ("unc", "normaliser-error-" + type(e).__name__), repr(e)
+        verdicts.append([v, detail])
+    if an.startswith("x86_64"):
+        second_opinion_x86(p, an, todo, verdicts, norm)
+    for (inst, text, blob), d, (v, detail) in zip(todo, dec, verdicts):
+        p.add()
+        opts = ctor_names(inst)
+        cname = "%s:%s" % (an, inst.cid)
+        if opts:
+            cname += "[%s]" % ",".join(opts[i] for i in sorted(opts))
         if rows is not None:
             rows.append((inst, text, blob, d, v, detail))
         if v[0] == "ok":
@@ -245,8 +250,31 @@ def process(p, an, insts, rows=None):
                 p.violation(key, what, inst.witness())
 
 
+CHUNK = 40000
 SAMPLE_CLASSES = ("addi_ins", "Ldr1", "mov_ins#3", "Sw", "Movw")
 _SAMPLED = set()
+
+
+def second_opinion_x86(p, an, todo, verdicts, norm):
+    """x86-64 has a second independent decoder (GNU objdump): a difference reported against LLVM stands only if it is also a
+    difference against objdump's reading of the same bytes; otherwise the two references disagree and the instance is unclassified."""
+    from vf.oracles import llvmdis
+    idx = [i for i, (v, _) in enumerate(verdicts) if v[0] == "viol"]
+    if not idx:
+        return
+    dec2 = llvmdis.objdump_x86([todo[i][2] for i in idx])
+    for i, d2 in zip(idx, dec2):
+        inst, text, blob = todo[i]
+        p.count("x86_second_opinions_objdump")
+        if d2 is None:
+            continue
+        try:
+            v2, _ = judge_one(an, inst, text, blob, d2, norm)
+        except Exception:  # noqa
+            continue
+        if v2[0] in ("ok", "c10"):
+            verdicts[i][0] = ("unc", "llvm-and-objdump-disagree")
+            verdicts[i][1] = "objdump: " + " ; ".join(d2)
 
 
 def worker(p, shard, cfg):
@@ -254,17 +282,24 @@ def worker(p, shard, cfg):
     for an, cids in shard:
         ai = insgen.get_arch_info(an)
         insts = []
+        total = 0
         for cid in cids:
             ci = ai.by_cid[cid]
             n = 0
             for inst in insgen.class_instances(ci, cfg["mode"], cfg["full_bits"]):
                 insts.append(inst)
                 n += 1
+                if len(insts) >= CHUNK:         # bounded memory: one reference process per CHUNK instances
+                    total += len(insts)
+                    process(p, an, insts)
+                    insts = []
             p.count("classes")
             if n == 0:
                 p.collect("unbuildable_classes", "%s:%s" % (an, cid))
-        p.count("instances:" + an, len(insts))
-        process(p, an, insts)
+        total += len(insts)
+        p.count("instances:" + an, total)
+        if insts:
+            process(p, an, insts)
 
 
 def jobs():
